@@ -554,13 +554,42 @@ type rawPacket struct {
 	tag      int
 	hdrOff   int
 	bodyOff  int
-	declared int64
-	body     []byte // the octets available (shorter than declared when the stream ends early)
-	short    bool
+	declared int64  // length field of a definite-length packet; -1 for partial / indeterminate lengths
+	body     []byte // the content octets available (fewer than announced when the stream ends early)
+	short    bool   // the stream ends before the end of the packet
+	end      int    // offset behind the packet
 }
 
-// splitStream cuts a packet stream at its headers. inDomain is false when a partial or an
-// indeterminate length is met (outside the modelled domain); the scan stops at the first malformed header.
+// pgpReadLength reads a new-format length (RFC 4880 4.2.2) at b[pos:].
+func pgpReadLength(b []byte, pos int) (n int64, partial bool, next int, ok bool) {
+	if pos >= len(b) {
+		return
+	}
+	l0 := b[pos]
+	pos++
+	switch {
+	case l0 < 192:
+		return int64(l0), false, pos, true
+	case l0 < 224:
+		if pos >= len(b) {
+			return
+		}
+		return int64(l0-192)<<8 + int64(b[pos]) + 192, false, pos + 1, true
+	case l0 < 255:
+		return int64(1) << (l0 & 0x1f), true, pos, true
+	}
+	if pos+4 > len(b) {
+		return
+	}
+	return int64(binary.BigEndian.Uint32(b[pos:])), false, pos + 4, true
+}
+
+// splitStream cuts a packet stream at its headers the way packet.Read frames it: definite,
+// partial and indeterminate lengths; a packet that is handed out as a stream (compressed,
+// encrypted, literal data) is left after the octets its parser reads, and the next header is
+// taken from its body. zlib is true when a compressed packet with algorithm 2 and a well-formed
+// zlib header is met (the only streams outside the modelled domain). The scan stops at the
+// first malformed header.
 func splitStream(b []byte) (pkts []rawPacket, inDomain bool) {
 	inDomain = true
 	off := 0
@@ -569,59 +598,149 @@ func splitStream(b []byte) (pkts []rawPacket, inDomain bool) {
 		if t&0x80 == 0 {
 			return
 		}
-		p := rawPacket{hdrOff: off}
+		p := rawPacket{hdrOff: off, declared: -1}
 		pos := off + 1
+		kind := 0 // 0 span, 1 partial, 2 to the end of the stream
 		if t&0x40 == 0 {
 			p.tag = int(t&0x3f) >> 2
 			lt := t & 3
 			if lt == 3 {
-				return pkts, false
+				kind = 2
+			} else {
+				nb := 1 << lt
+				if pos+nb > len(b) {
+					return
+				}
+				p.declared = 0
+				for i := 0; i < nb; i++ {
+					p.declared = p.declared<<8 | int64(b[pos+i])
+				}
+				pos += nb
 			}
-			nb := 1 << lt
-			if pos+nb > len(b) {
-				return
-			}
-			for i := 0; i < nb; i++ {
-				p.declared = p.declared<<8 | int64(b[pos+i])
-			}
-			pos += nb
 		} else {
 			p.tag = int(t & 0x3f)
-			if pos >= len(b) {
+			n, partial, next, ok := pgpReadLength(b, pos)
+			if !ok {
 				return
 			}
-			l0 := b[pos]
-			pos++
-			switch {
-			case l0 < 192:
-				p.declared = int64(l0)
-			case l0 < 224:
-				if pos >= len(b) {
-					return
+			pos = next
+			if partial {
+				kind = 1
+				p.declared = -1
+				// chunks
+				p.bodyOff = pos
+				cur, rem, more := pos, n, true
+				for {
+					if int64(len(b)-cur) < rem {
+						p.body = append(p.body, b[cur:]...)
+						p.short, p.end = true, len(b)
+						break
+					}
+					p.body = append(p.body, b[cur:cur+int(rem)]...)
+					cur += int(rem)
+					if !more {
+						p.end = cur
+						break
+					}
+					ln, pa, nx, ok := pgpReadLength(b, cur)
+					if !ok {
+						p.short, p.end = true, len(b)
+						break
+					}
+					cur, rem, more = nx, ln, pa
 				}
-				p.declared = int64(l0-192)<<8 + int64(b[pos]) + 192
-				pos++
-			case l0 < 255:
-				return pkts, false
-			default:
-				if pos+4 > len(b) {
-					return
-				}
-				p.declared = int64(binary.BigEndian.Uint32(b[pos:]))
-				pos += 4
+			} else {
+				p.declared = n
 			}
 		}
-		p.bodyOff = pos
-		end := int64(pos) + p.declared
-		if end > int64(len(b)) {
-			end = int64(len(b))
-			p.short = true
+		switch kind {
+		case 0:
+			p.bodyOff = pos
+			end := int64(pos) + p.declared
+			if end > int64(len(b)) {
+				end = int64(len(b))
+				p.short = true
+			}
+			p.body = b[pos:end]
+			p.end = int(end)
+		case 2:
+			p.bodyOff = pos
+			p.body = b[pos:]
+			p.end = len(b)
 		}
-		p.body = b[pos:end]
 		pkts = append(pkts, p)
-		off = int(end)
+		// packets handed out as a stream: the reader stays inside the body
+		k := -1
+		switch p.tag {
+		case 8:
+			k = 1
+			if len(p.body) >= 3 && p.body[0] == 2 && p.body[1]&0x0f == 8 && p.body[1]>>4 <= 7 && (int(p.body[1])<<8|int(p.body[2]))%31 == 0 {
+				inDomain = false
+			}
+		case 9:
+			k = 0
+		case 18:
+			k = 1
+		case 11:
+			if len(p.body) >= 2 {
+				k = 6 + int(p.body[1])
+			}
+		}
+		if k >= 0 {
+			next, ok := pgpSkipContent(b, pos, kind, p.declared, t, k)
+			if !ok {
+				return
+			}
+			off = next
+			continue
+		}
+		off = p.end
 	}
 	return
+}
+
+// pgpSkipContent: the raw offset after k content octets were read through the packet's reader.
+func pgpSkipContent(b []byte, pos, kind int, declared int64, tagOctet byte, k int) (int, bool) {
+	switch kind {
+	case 0:
+		if int64(k) > declared || pos+k > len(b) {
+			return 0, false
+		}
+		return pos + k, true
+	case 2:
+		if pos+k > len(b) {
+			return 0, false
+		}
+		return pos + k, true
+	}
+	// partial: find the first chunk again (pos is behind its length octet)
+	rem := int64(1) << (b[pos-1] & 0x1f)
+	more := true
+	cur := pos
+	for k > 0 {
+		if rem == 0 {
+			if !more {
+				return 0, false
+			}
+			ln, pa, nx, ok := pgpReadLength(b, cur)
+			if !ok {
+				return 0, false
+			}
+			cur, rem, more = nx, ln, pa
+			continue
+		}
+		t := int64(k)
+		if rem < t {
+			t = rem
+		}
+		if int64(len(b)-cur) < t {
+			return 0, false
+		}
+		cur += int(t)
+		rem -= t
+		k -= int(t)
+	}
+	return cur, true
 }
 
 type rawKey struct {
@@ -931,9 +1050,8 @@ func (ob *oracleBuilder) addKey(k *rawKey, body []byte, secret bool) {
 	}
 }
 
-// possiblyUnmodelled reports streams on which packet.Read's behaviour is outside the model:
-// partial / indeterminate lengths, v3 keys or signatures, packet types the key reader does not
-// expect, and key or signature packets that are longer than their content.
+// possiblyUnmodelled reports streams on which packet.Read's behaviour is outside the model: a
+// compressed-data packet with a well-formed zlib header (see splitStream).
 func pgpOracle(stream []byte) (oracle SL, possiblyUnmodelled bool) {
 	ob := &oracleBuilder{seen: map[string]bool{}}
 	for _, hid := range []byte{1, 2, 3, 8, 9, 10, 11} {
@@ -954,17 +1072,9 @@ func pgpOracle(stream []byte) (oracle SL, possiblyUnmodelled bool) {
 			first = false
 		}
 		switch p.tag {
-		case 1, 3, 4, 8, 9, 11, 17, 18:
-			possiblyUnmodelled = true
 		case 5, 6, 7, 14:
-			if (p.tag == 6 || p.tag == 14) && len(p.body) > 0 && p.body[0] < 4 {
-				possiblyUnmodelled = true
-			}
 			k, ok := readRawKey(p.body)
 			if ok {
-				if (p.tag == 6 || p.tag == 14) && k.pubLen != len(p.body) {
-					possiblyUnmodelled = true
-				}
 				ob.addKey(&k, p.body, p.tag == 5 || p.tag == 7)
 			}
 			if isFirst {
@@ -980,15 +1090,9 @@ func pgpOracle(stream []byte) (oracle SL, possiblyUnmodelled bool) {
 		case 13:
 			uid, haveUid, sub = p.body, true, nil
 		case 2:
-			if len(p.body) > 0 && p.body[0] < 4 {
-				possiblyUnmodelled = true
-			}
 			s, ok := readRawSig(p.body)
 			if !ok {
 				continue
-			}
-			if s.total != len(p.body) {
-				possiblyUnmodelled = true
 			}
 			if primary == nil {
 				continue
